@@ -1,7 +1,7 @@
 (* C18Theorems.v — the property theorems of C18 and nothing else.  Each is closed by
    `exact <lemma>` and followed by Print Assumptions (audited by ./check on every run). *)
 From V.lib Require Import Base.
-From V.c18 Require Import C18Model C18BitsProofs C18AscProofs C18AdtsProofs C18EntryModel C18EntryProofs C18TieProofs.
+From V.c18 Require Import C18Model C18BitsProofs C18AscProofs C18AdtsProofs C18EntryModel C18EntryProofs C18TieProofs C18HistModel C18HistProofs.
 
 (* DecodeAudioSpecificConfig inverts Encode on the whole supported domain: object types 2/5/29,
    all 16 channel configurations, every sampling / extension frequency in 0 .. 2^24-1 (the 13 table
@@ -236,3 +236,93 @@ Theorem C18_adts_sync_offset_machine :
     decode_adts_go (junk ++ go_write (adts_fields h) false ++ rest) = Ok (h, Z.of_nat (length junk)).
 Proof. exact adts_sync_offset_machine. Qed.
 Print Assumptions C18_adts_sync_offset_machine.
+
+(* ------------------------------------------------------------------ histories *)
+(* "An AAC sample entry built from a configuration decodes back to that configuration" - for every
+   entry of every history, whenever it is read.  A history is any list of operations: SetAACDescriptor on
+   some track of some init segment (HBuild), Encode of an entry built so far (HEncEntry), Encode of a whole
+   init segment (HEncInit), in any interleaving, of any length.  In the model an entry is a pure value, so
+   the statements are immediate by induction over the operations; the real code (where an entry holds a
+   []byte that CreateEsdsBox keeps without copying) is tied to hrun by the correspondence check over
+   generated histories, and checked against the property directly by the history search.
+
+   The i-th entry of the state any history reaches is the one its own (i-th successful) build made, and it
+   decodes - DecodeBox and DecodeBoxSR paths - to the configuration of THAT build, whatever the other
+   operations are *)
+Theorem C18_entries_independent :
+  forall (ops : list hop) (i : nat) (e : hentry),
+    nth_error (fst (hrun ops [])) i = Some e ->
+    nth_error (built ops) i = Some (he_ot e, he_f e)
+    /\ set_aac_descriptor (he_ot e) (he_f e) = Ok (he_bytes e)
+    /\ (entry_freq_ok (he_ot e) (he_f e) = true ->
+        entry_asc (he_bytes e) = EOk (set_aac_asc (he_ot e) (he_f e))
+        /\ entry_asc_sr (he_bytes e) = EOk (set_aac_asc (he_ot e) (he_f e))).
+Proof. exact entries_independent. Qed.
+Print Assumptions C18_entries_independent.
+
+Example C18_entries_independent_sat :
+  let ops := [HBuild 0 0 HEAACv1 24000%Z; HEncEntry 0; HBuild 0 1 AAClc 12345%Z; HBuild 1 0 42 48000%Z;
+              HEncInit 0; HBuild 1 0 HEAACv2 22050%Z; HEncEntry 0] in
+  built ops = [(HEAACv1, 24000%Z); (AAClc, 12345%Z); (HEAACv2, 22050%Z)]
+  /\ map (fun e => entry_asc (he_bytes e)) (fst (hrun ops []))
+     = [EOk (set_aac_asc HEAACv1 24000%Z); EOk (set_aac_asc AAClc 12345%Z); EOk (set_aac_asc HEAACv2 22050%Z)].
+Proof. split; vm_compute; reflexivity. Qed.
+
+(* operations that follow never change an entry that exists *)
+Theorem C18_history_entry_stable :
+  forall (pre post : list hop) (st : list hentry) (i : nat) (e : hentry),
+    nth_error (fst (hrun pre st)) i = Some e ->
+    nth_error (fst (hrun (pre ++ post) st)) i = Some e.
+Proof. exact history_entry_stable. Qed.
+Print Assumptions C18_history_entry_stable.
+
+(* an Encode of entry i observed anywhere inside a history shows the bytes entry i has at its end *)
+Theorem C18_history_encode_obs :
+  forall (pre post : list hop) (i : nat) (st : list hentry) (b : list N),
+    nth_error (snd (hrun (pre ++ HEncEntry i :: post) st)) (length pre) = Some (OBytes [b]) ->
+    exists e, nth_error (fst (hrun (pre ++ HEncEntry i :: post) st)) i = Some e /\ he_bytes e = b.
+Proof. exact history_encode_obs. Qed.
+Print Assumptions C18_history_encode_obs.
+
+(* k canonical configurations encoded one after the other into ONE writer and decoded by k calls of
+   DecodeAudioSpecificConfig on ONE reader (each call its own bits.Reader) come back one by one, each as
+   itself, each call consuming exactly its own bytes - whatever was encoded before or after, for any k *)
+Theorem C18_asc_stream_independent :
+  forall (l : list asc) (rest : list N),
+    forallb canonical l = true ->
+    decode_asc_stream (length l) (encode_asc_stream l ++ rest) = asc_stream_expect l rest.
+Proof. exact asc_stream_independent. Qed.
+Print Assumptions C18_asc_stream_independent.
+
+Theorem C18_asc_stream_values :
+  forall (l : list asc) (rest : list N),
+    forallb canonical l = true ->
+    map fst (decode_asc_stream (length l) (encode_asc_stream l ++ rest)) = map Ok l.
+Proof. exact asc_stream_values. Qed.
+Print Assumptions C18_asc_stream_values.
+
+Example C18_asc_stream_sat :
+  forallb canonical [mkAsc HEAACv2 1 12345%Z 16777215%Z true true; mkAsc AAClc 7 48000%Z 0%Z false false;
+                     mkAsc HEAACv1 2 24000%Z 48000%Z true false] = true.
+Proof. reflexivity. Qed.
+
+(* the DecodeAudioSpecificConfig of C18Model is the first component of the state-returning one *)
+Theorem C18_asc_state_decoder_same :
+  forall s : rstate, fst (decode_asc_gs rstate rd rerr s) = decode_asc_g rstate rd rerr s.
+Proof. exact decode_asc_gs_fst. Qed.
+Print Assumptions C18_asc_state_decoder_same.
+
+(* k ADTS headers, each preceded by up to 187 junk bytes without a sync word, back to back: k calls of
+   DecodeADTSHeader on one reader return each header with its own junk length as offset (a call is taken to
+   consume offset + HeaderLength bytes: compared with the real reader on every run) *)
+Theorem C18_adts_stream_independent :
+  forall (l : list (list N * adts)) (rest : list N),
+    forallb adts_item_ok l = true ->
+    decode_adts_stream (length l) (encode_adts_stream l ++ rest) = adts_stream_expect l rest.
+Proof. exact adts_stream_independent. Qed.
+Print Assumptions C18_adts_stream_independent.
+
+Example C18_adts_stream_sat :
+  forallb adts_item_ok [([0; 255; 255; 247; 71; 255], mkAdts 0 2 3 2 7 8184 2047); ([], mkAdts 0 1 0 7 7 0 0);
+                        ([255], mkAdts 0 4 15 1 7 371 1000)] = true.
+Proof. reflexivity. Qed.
